@@ -39,6 +39,497 @@ Proof.
                 | context [match _ with _ => _ end] => fail
                 | _ => destruct x
                 end
+            (* a boolean test whose only inner matches sit under binders (the log budget of O_log) *)
+            | |- context [if ?c then _ else _] =>
+                lazymatch type of c with bool => destruct c end
             end; frame_cbn);
     try reflexivity; try (split; reflexivity).
 Qed.
+
+(* ---- scratch cells ---- *)
+Lemma alookup_aremove i j (l : list (N * value)) :
+  alookup N.eqb j (aremove N.eqb i l) = if N.eqb j i then None else alookup N.eqb j l.
+Proof.
+  induction l as [|[k v] t IH]; cbn [aremove alookup].
+  - destruct (N.eqb j i); reflexivity.
+  - destruct (N.eqb i k) eqn:E1.
+    + apply N.eqb_eq in E1. subst k. rewrite IH. destruct (N.eqb j i) eqn:E2; reflexivity.
+    + cbn [alookup]. destruct (N.eqb j k) eqn:E2.
+      * apply N.eqb_eq in E2. subst k. rewrite N.eqb_sym in E1. rewrite E1. reflexivity.
+      * exact IH.
+Qed.
+
+Lemma scratch_get_aset sc i v j :
+  scratch_get (aset N.eqb i v sc) j = if N.eqb j i then v else scratch_get sc j.
+Proof.
+  unfold scratch_get, aset. cbn [alookup]. destruct (N.eqb j i) eqn:E; [reflexivity|].
+  rewrite alookup_aremove, E. reflexivity.
+Qed.
+
+(* two scratch spaces agree outside the set of cells C *)
+Definition cells_agree (C : N -> Prop) (a b : list (N * value)) : Prop :=
+  forall i, ~ C i -> scratch_get a i = scratch_get b i.
+
+(* states equal except for the scratch cells in C *)
+Definition st_eqx (C : N -> Prop) (st1 st2 : mstate) : Prop :=
+  cells_agree C (s_scratch st1) (s_scratch st2) /\ st2 = with_scratch st1 (s_scratch st2).
+
+Lemma with_scratch_self st : with_scratch st (s_scratch st) = st.
+Proof. destruct st; reflexivity. Qed.
+
+Lemma st_eqx_intro C st sc : cells_agree C (s_scratch st) sc -> st_eqx C st (with_scratch st sc).
+Proof. intros H. split; [exact H|reflexivity]. Qed.
+
+Lemma st_eqx_elim C st1 st2 :
+  st_eqx C st1 st2 -> exists sc, st2 = with_scratch st1 sc /\ cells_agree C (s_scratch st1) sc.
+Proof. intros [H1 H2]. exists (s_scratch st2). split; assumption. Qed.
+
+Lemma st_eqx_refl C st : st_eqx C st st.
+Proof. split; [intros i _; reflexivity|symmetry; apply with_scratch_self]. Qed.
+
+Lemma st_eqx_mono (C C' : N -> Prop) st1 st2 :
+  (forall i, C i -> C' i) -> st_eqx C st1 st2 -> st_eqx C' st1 st2.
+Proof. intros Hi [H1 H2]. split; [|exact H2]. intros i Hn. apply H1. intros Hc. apply Hn, Hi, Hc. Qed.
+
+Lemma st_eqx_trans (C1 C2 : N -> Prop) a b c :
+  st_eqx C1 a b -> st_eqx C2 b c -> st_eqx (fun i => C1 i \/ C2 i) a c.
+Proof.
+  intros [H1 H2] [H3 H4]. split.
+  - intros i Hn. rewrite H1, H3; [reflexivity| |]; intros Hc; apply Hn; [right|left]; exact Hc.
+  - rewrite H4. rewrite H2. reflexivity.
+Qed.
+
+Lemma st_eqx_sym C a b : st_eqx C a b -> st_eqx C b a.
+Proof.
+  intros [H1 H2]. split.
+  - intros i Hn. symmetry. apply H1, Hn.
+  - rewrite H2. cbn. destruct a; reflexivity.
+Qed.
+
+Lemma st_eqx_set_both C st1 st2 i v :
+  st_eqx C st1 st2 -> st_eqx C (set_scratch st1 i v) (set_scratch st2 i v).
+Proof.
+  intros H. destruct (st_eqx_elim _ _ _ H) as [sc [-> Hc]].
+  change (set_scratch (with_scratch st1 sc) i v)
+    with (with_scratch (set_scratch st1 i v) (aset N.eqb i v sc)).
+  apply st_eqx_intro. cbn [set_scratch s_scratch].
+  intros j Hn. rewrite !scratch_get_aset. destruct (N.eqb j i); [reflexivity|]. apply Hc, Hn.
+Qed.
+
+Lemma st_eqx_set_left (C : N -> Prop) st1 st2 c v :
+  C c -> st_eqx C st1 st2 -> st_eqx C (set_scratch st1 c v) st2.
+Proof.
+  intros Hin H. destruct (st_eqx_elim _ _ _ H) as [sc [-> Hc]].
+  change (with_scratch st1 sc) with (with_scratch (set_scratch st1 c v) sc).
+  apply st_eqx_intro. cbn [set_scratch s_scratch].
+  intros j Hn. rewrite scratch_get_aset.
+  destruct (N.eqb j c) eqn:E; [apply N.eqb_eq in E; subst j; contradiction|]. apply Hc, Hn.
+Qed.
+
+Lemma st_eqx_get C st1 st2 i : st_eqx C st1 st2 -> ~ C i ->
+  scratch_get (s_scratch st1) i = scratch_get (s_scratch st2) i.
+Proof. intros [H _] Hn. apply H, Hn. Qed.
+
+(* ---- which cell an operation READS (writes never break agreement outside C) ---- *)
+Definition op_reads (o : opc) (im : list imm) (stk : list value) : option N :=
+  match o, im, stk with
+  | O_load, [IInt i], _ => Some i
+  | O_loads, _, VI i :: _ => Some i
+  | _, _, _ => None
+  end.
+
+Definition ores_eqx (C : N -> Prop) (r1 r2 : ores) : Prop :=
+  match r1, r2 with
+  | OOk s1 a, OOk s2 b => s1 = s2 /\ st_eqx C a b
+  | OFail, OFail | ONot, ONot | OUnsup, OUnsup => True
+  | _, _ => False
+  end.
+
+Lemma exec_op_eqx cx C o im stk st1 st2 :
+  st_eqx C st1 st2 ->
+  (forall c, op_reads o im stk = Some c -> ~ C c) ->
+  ores_eqx C (exec_op cx o im stk st1) (exec_op cx o im stk st2).
+Proof.
+  intros H Hs. destruct (scratch_opc o) eqn:Eo.
+  - destruct o; try discriminate Eo; clear Eo; unfold exec_op.
+    + (* load *)
+      change (exec_pure O_load (imms_to_args im) stk) with PNot. cbv beta iota.
+      destruct im as [|[i|b|n] [|x t]]; try exact Logic.I.
+      destruct (N.ltb i 256); [|exact Logic.I].
+      split; [|exact H]. f_equal. apply (st_eqx_get _ _ _ _ H). apply Hs. reflexivity.
+    + (* store *)
+      change (exec_pure O_store (imms_to_args im) stk) with PNot. cbv beta iota.
+      destruct im as [|[i|b|n] [|x t]]; destruct stk as [|v r]; try exact Logic.I.
+      destruct (N.ltb i 256); [|exact Logic.I].
+      split; [reflexivity|]. apply st_eqx_set_both, H.
+    + (* loads *)
+      change (exec_pure O_loads (imms_to_args im) stk) with PNot. cbv beta iota.
+      destruct stk as [|[i|b] r]; try exact Logic.I.
+      destruct (N.ltb i 256); [|exact Logic.I].
+      split; [|exact H]. f_equal. apply (st_eqx_get _ _ _ _ H). apply Hs. reflexivity.
+    + (* stores *)
+      change (exec_pure O_stores (imms_to_args im) stk) with PNot. cbv beta iota.
+      destruct stk as [|v [|[i|b] r]]; try exact Logic.I.
+      destruct (N.ltb i 256); [|exact Logic.I].
+      split; [reflexivity|]. apply st_eqx_set_both, H.
+  - destruct (st_eqx_elim _ _ _ H) as [sc [-> Hc]].
+    pose proof (exec_op_frame cx o im stk st1 sc Eo) as F.
+    destruct (exec_op cx o im stk st1) as [s a| | |].
+    + destruct F as [F1 F2]. rewrite F2. split; [reflexivity|].
+      apply st_eqx_intro. rewrite F1. exact Hc.
+    + rewrite F. exact Logic.I.
+    + rewrite F. exact Logic.I.
+    + rewrite F. exact Logic.I.
+Qed.
+
+(* ---- one operation of the graph semantics ---- *)
+Definition instr_reads (env : denv) (i : instr) (stk : list value) : option N :=
+  match slot_access (i_op i) (i_args i) with
+  | Some (true, u) => Some (e_asg env u)
+  | Some (false, _) => None
+  | None =>
+      match args_to_imms env (i_op i) (i_args i) with
+      | Some im => op_reads (i_op i) im stk
+      | None => None
+      end
+  end.
+
+Definition dout_eqx (C : N -> Prop) (r1 r2 : dout) : Prop :=
+  match r1, r2 with
+  | DNorm s1 a, DNorm s2 b => s1 = s2 /\ st_eqx C a b
+  | DFail, DFail => True
+  | DUnsup o1, DUnsup o2 => o1 = o2
+  | _, _ => False
+  end.
+
+Lemma do_op_eqx env C i stk st1 st2 :
+  st_eqx C st1 st2 ->
+  (forall c, instr_reads env i stk = Some c -> ~ C c) ->
+  dout_eqx C (do_op env (i_op i) (i_args i) stk st1) (do_op env (i_op i) (i_args i) stk st2).
+Proof.
+  intros H Hs. unfold do_op. unfold instr_reads in Hs.
+  destruct (slot_access (i_op i) (i_args i)) as [[[|] u]|].
+  - split; [|exact H]. f_equal. apply (st_eqx_get _ _ _ _ H). apply Hs. reflexivity.
+  - destruct stk as [|v r]; [exact Logic.I|]. split; [reflexivity|]. apply st_eqx_set_both, H.
+  - destruct (args_to_imms env (i_op i) (i_args i)) as [im|]; [|reflexivity].
+    pose proof (exec_op_eqx (e_ctx env) C (i_op i) im stk st1 st2 H Hs) as E.
+    destruct (exec_op (e_ctx env) (i_op i) im stk st1) as [s a| | |];
+      destruct (exec_op (e_ctx env) (i_op i) im stk st2) as [s' a'| | |]; try contradiction.
+    + exact E.
+    + exact Logic.I.
+    + destruct (is_err (i_op i)); [exact Logic.I|reflexivity].
+    + reflexivity.
+Qed.
+
+(* ---- one block ---- *)
+Lemma mem_N_In x l : mem_N x l = true <-> In x l.
+Proof.
+  induction l as [|y t IH]; cbn [mem_N In]; [split; [discriminate|tauto]|].
+  rewrite orb_true_iff, IH, N.eqb_eq. split; intros [H|H]; auto.
+Qed.
+
+Lemma keep_op_store l s : In s l -> keep_op l (mkI O_store [ASlot s]) = false.
+Proof.
+  intros H. apply mem_N_In in H. unfold keep_op.
+  change (is_op (mkI O_store [ASlot s]) O_store) with true. cbn [orb].
+  change (instr_slots (mkI O_store [ASlot s])) with [s]. cbn [subset_N forallb]. rewrite H. reflexivity.
+Qed.
+
+Lemma keep_op_load l s : In s l -> keep_op l (mkI O_load [ASlot s]) = false.
+Proof.
+  intros H. apply mem_N_In in H. unfold keep_op.
+  change (is_op (mkI O_load [ASlot s]) O_load) with true. rewrite orb_true_r.
+  change (instr_slots (mkI O_load [ASlot s])) with [s]. cbn [subset_N forallb]. rewrite H. reflexivity.
+Qed.
+
+(* every op that [keep_op l] deletes is half of an adjacent store/load pair of one slot of l *)
+Inductive paired (l : list N) : list instr -> Prop :=
+| pr_nil : paired l []
+| pr_keep i t : keep_op l i = true -> paired l t -> paired l (i :: t)
+| pr_pair s t : In s l -> paired l t ->
+    paired l (mkI O_store [ASlot s] :: mkI O_load [ASlot s] :: t).
+
+Definition bres_eqx (C : N -> Prop) (r1 r2 : bres) : Prop :=
+  match r1, r2 with
+  | BOk s1 a, BOk s2 b => s1 = s2 /\ st_eqx C a b
+  | BExit v1 a, BExit v2 b => v1 = v2 /\ st_eqx C a b
+  | BRet s1 a, BRet s2 b => s1 = s2 /\ st_eqx C a b
+  | BFail, BFail => True
+  | BUnsup o1, BUnsup o2 => o1 = o2
+  | _, _ => False
+  end.
+
+(* [P] holds at every (op, stack) point the execution of [ops] goes through *)
+Fixpoint ops_safe (P : instr -> list value -> Prop) (env : denv) (ops : list instr)
+         (stk : list value) (st : mstate) : Prop :=
+  match ops with
+  | [] => True
+  | i :: t =>
+      if is_return (i_op i) then True
+      else if is_retsub (i_op i) then True
+      else P i stk /\
+           match do_op env (i_op i) (i_args i) stk st with
+           | DNorm s' st' => ops_safe P env t s' st'
+           | _ => True
+           end
+  end.
+
+Section Step.
+  Variable env : denv.
+  Variable l : list N.
+  Variable C : N -> Prop.
+  Variable P : instr -> list value -> Prop.
+  Hypothesis cells_in : forall s, In s l -> C (e_asg env s).
+  Hypothesis P_keep : forall i stk, P i stk -> keep_op l i = true ->
+    forall c, instr_reads env i stk = Some c -> ~ C c.
+  Hypothesis P_store : forall s stk, In s l -> P (mkI O_store [ASlot s]) stk -> stk <> [].
+
+  Lemma exec_ops_sim ops : paired l ops -> forall stk st1 st2,
+    st_eqx C st1 st2 -> ops_safe P env ops stk st1 ->
+    bres_eqx C (exec_ops env ops stk st1) (exec_ops env (filter (keep_op l) ops) stk st2) /\
+    ops_safe P env (filter (keep_op l) ops) stk st2.
+  Proof.
+    induction 1 as [|i t Hk Hp IH|s t Hs Hp IH]; intros stk st1 st2 He Hsafe.
+    - cbn. split; [split; [reflexivity|exact He]|exact Logic.I].
+    - cbn [filter]. rewrite Hk. cbn [exec_ops ops_safe] in *.
+      destruct (is_return (i_op i)).
+      { split; [|exact Logic.I]. destruct stk as [|v r]; [exact Logic.I|]. split; [reflexivity|exact He]. }
+      destruct (is_retsub (i_op i)).
+      { split; [|exact Logic.I]. split; [reflexivity|exact He]. }
+      destruct Hsafe as [HP Hrest].
+      pose proof (do_op_eqx env C i stk st1 st2 He (P_keep i stk HP Hk)) as E.
+      destruct (do_op env (i_op i) (i_args i) stk st1) as [s1 a| | | | | | | |];
+        destruct (do_op env (i_op i) (i_args i) stk st2) as [s2 b| | | | | | | |]; try contradiction.
+      + destruct E as [<- E]. destruct (IH s1 a b E Hrest) as [I1 I2]. split; [exact I1|]. split; [exact HP|exact I2].
+      + split; [exact Logic.I|]. split; [exact HP|exact Logic.I].
+      + cbn in E. subst. split; [reflexivity|]. split; [exact HP|exact Logic.I].
+    - cbn [filter]. rewrite (keep_op_store l s Hs), (keep_op_load l s Hs).
+      cbn [exec_ops ops_safe i_op i_args is_return is_retsub] in Hsafe |- *.
+      destruct Hsafe as [HP Hrest].
+      pose proof (P_store s stk Hs HP) as Hne.
+      destruct stk as [|v r]; [contradiction|].
+      change (do_op env O_store [ASlot s] (v :: r) st1) with (DNorm r (set_scratch st1 (e_asg env s) v)) in *.
+      cbv beta iota in Hrest. destruct Hrest as [_ Hrest].
+      change (do_op env O_load [ASlot s] r (set_scratch st1 (e_asg env s) v))
+        with (DNorm (scratch_get (s_scratch (set_scratch st1 (e_asg env s) v)) (e_asg env s) :: r)
+                    (set_scratch st1 (e_asg env s) v)) in *.
+      cbv beta iota in Hrest |- *.
+      cbn [set_scratch s_scratch] in Hrest |- *. rewrite scratch_get_aset, N.eqb_refl in Hrest |- *.
+      apply IH; [|exact Hrest].
+      apply (st_eqx_set_left C st1 st2 (e_asg env s) v (cells_in s Hs) He).
+  Qed.
+End Step.
+
+(* ---- the graph ---- *)
+Definition filter_block (l : list N) (b : block) : block := set_ops b (filter (keep_op l) (b_ops b)).
+
+Definition conf_eqx (C : N -> Prop) (c1 c2 : gconf) : Prop :=
+  match c1, c2 with
+  | GAt b1 s1 a, GAt b2 s2 b => b1 = b2 /\ s1 = s2 /\ st_eqx C a b
+  | GEnd s1 a, GEnd s2 b => s1 = s2 /\ st_eqx C a b
+  | GExit v1 a, GExit v2 b => v1 = v2 /\ st_eqx C a b
+  | GRet s1 a, GRet s2 b => s1 = s2 /\ st_eqx C a b
+  | GFail, GFail => True
+  | GUnsup o1, GUnsup o2 => o1 = o2
+  | _, _ => False
+  end.
+
+Lemma conf_eqx_halting C c1 c2 : conf_eqx C c1 c2 -> (halting c1 <-> halting c2).
+Proof. destruct c1, c2; cbn; tauto. Qed.
+
+Definition conf_in (R : id -> Prop) (c : gconf) : Prop :=
+  match c with GAt b _ _ => R b | _ => True end.
+
+(* every block-execution that starts in a configuration reachable from [c] is [P]-safe *)
+Definition safe_from (P : instr -> list value -> Prop) (env : denv) (G : bgraph) (c : gconf) : Prop :=
+  forall b stk st blk, star env G c (GAt b stk st) -> G b = Some blk -> ops_safe P env (b_ops blk) stk st.
+
+Lemma safe_from_step P env G c c' : gstep env G c = Some c' -> safe_from P env G c -> safe_from P env G c'.
+Proof. intros E H b stk st blk S. apply H. eapply star_step; eauto. Qed.
+
+Section GraphStep.
+  Variable env : denv.
+  Variable l : list N.
+  Variable C : N -> Prop.
+  Variable P : instr -> list value -> Prop.
+  Hypothesis cells_in : forall s, In s l -> C (e_asg env s).
+  Hypothesis P_keep : forall i stk, P i stk -> keep_op l i = true ->
+    forall c, instr_reads env i stk = Some c -> ~ C c.
+  Hypothesis P_store : forall s stk, In s l -> P (mkI O_store [ASlot s]) stk -> stk <> [].
+
+  Variable R : id -> Prop.
+  Variables G G' : bgraph.
+  Hypothesis R_closed : forall b blk x, R b -> G b = Some blk -> In x (outgoing blk) -> R x.
+  Hypothesis R_paired : forall b blk, R b -> G b = Some blk -> paired l (b_ops blk).
+  Hypothesis G'_def : forall b, R b -> G' b = option_map (filter_block l) (G b).
+
+  Lemma bstep_sim blk stk st1 st2 :
+    paired l (b_ops blk) -> st_eqx C st1 st2 -> ops_safe P env (b_ops blk) stk st1 ->
+    conf_eqx C (bstep env blk stk st1) (bstep env (filter_block l blk) stk st2).
+  Proof.
+    intros Hp He Hs.
+    destruct (exec_ops_sim env l C P cells_in P_keep P_store _ Hp stk st1 st2 He Hs) as [E _].
+    destruct blk as [ops n|ops t f]; cbn [filter_block set_ops b_ops bstep] in *.
+    - destruct (exec_ops env ops stk st1) as [s1 a|v1 a|s1 a| |o1];
+        destruct (exec_ops env (filter (keep_op l) ops) stk st2) as [s2 b|v2 b|s2 b| |o2]; try contradiction;
+        try exact E.
+      destruct E as [<- E]. destruct n as [x|]; cbn [cont_conf conf_eqx]; auto.
+    - destruct (exec_ops env ops stk st1) as [s1 a|v1 a|s1 a| |o1];
+        destruct (exec_ops env (filter (keep_op l) ops) stk st2) as [s2 b|v2 b|s2 b| |o2]; try contradiction;
+        try exact E.
+      destruct E as [<- E]. destruct s1 as [|v s1]; [exact Logic.I|].
+      destruct (truthy v) as [[|]|]; [destruct t as [x|]|destruct f as [x|]|]; cbn [conf_eqx]; auto.
+  Qed.
+
+  Lemma gstep_sim c1 c2 :
+    conf_eqx C c1 c2 -> conf_in R c1 -> safe_from P env G c1 ->
+    match gstep env G c1, gstep env G' c2 with
+    | Some d1, Some d2 => conf_eqx C d1 d2 /\ conf_in R d1
+    | None, None => True
+    | _, _ => False
+    end.
+  Proof.
+    intros He Hr Hs.
+    destruct c1 as [b stk st1|s a|v a|s a| |o]; destruct c2 as [b2 stk2 st2|s2 a2|v2 a2|s2 a2| |o2];
+      try contradiction; try exact Logic.I.
+    destruct He as [<- [<- He]]. cbn [conf_in] in Hr.
+    rewrite !gstep_bstep, (G'_def b Hr).
+    destruct (G b) as [blk|] eqn:Eb; cbn [option_map]; [|exact Logic.I].
+    split.
+    - apply bstep_sim; [eapply R_paired; eauto|exact He|].
+      eapply Hs; [apply star_refl|exact Eb].
+    - destruct (bstep env blk stk st1) as [x s' a'| | | | |] eqn:Es; cbn [conf_in]; try exact Logic.I.
+      eapply R_closed; [exact Hr|exact Eb|]. eapply bstep_target. exact Es.
+  Qed.
+
+  Lemma star_sim_fwd c1 d1 : star env G c1 d1 -> forall c2,
+    conf_eqx C c1 c2 -> conf_in R c1 -> safe_from P env G c1 ->
+    exists d2, star env G' c2 d2 /\ conf_eqx C d1 d2.
+  Proof.
+    induction 1 as [c|c c' c'' E S IH]; intros c2 He Hr Hs.
+    - exists c2. split; [apply star_refl|exact He].
+    - pose proof (gstep_sim c c2 He Hr Hs) as X. rewrite E in X.
+      destruct (gstep env G' c2) as [d2|] eqn:E2; [|contradiction].
+      destruct X as [X1 X2].
+      destruct (IH d2 X1 X2 (safe_from_step _ _ _ _ _ E Hs)) as [d3 [S3 E3]].
+      exists d3. split; [eapply star_step; eauto|exact E3].
+  Qed.
+
+  Lemma star_sim_bwd c2 d2 : star env G' c2 d2 -> forall c1,
+    conf_eqx C c1 c2 -> conf_in R c1 -> safe_from P env G c1 ->
+    exists d1, star env G c1 d1 /\ conf_eqx C d1 d2 /\ conf_in R d1.
+  Proof.
+    induction 1 as [c|c c' c'' E S IH]; intros c1 He Hr Hs.
+    - exists c1. split; [apply star_refl|]. split; assumption.
+    - pose proof (gstep_sim c1 c He Hr Hs) as X. rewrite E in X.
+      destruct (gstep env G c1) as [d1|] eqn:E1; [|contradiction].
+      destruct X as [X1 X2].
+      destruct (IH d1 X1 X2 (safe_from_step _ _ _ _ _ E1 Hs)) as [d3 [S3 E3]].
+      exists d3. split; [eapply star_step; eauto|exact E3].
+  Qed.
+
+  Lemma safe_from_sim c1 c2 :
+    conf_eqx C c1 c2 -> conf_in R c1 -> safe_from P env G c1 -> safe_from P env G' c2.
+  Proof.
+    intros He Hr Hs b stk st2 blk' S Eb'.
+    destruct (star_sim_bwd _ _ S c1 He Hr Hs) as [d1 [S1 [E1 R1]]].
+    destruct d1 as [b1 stk1 st1|s a|v a|s a| |o]; try contradiction.
+    destruct E1 as [-> [-> E1]]. cbn [conf_in] in R1.
+    rewrite (G'_def b R1) in Eb'.
+    destruct (G b) as [blk|] eqn:Eb; [|discriminate]. cbn in Eb'. injection Eb' as <-.
+    unfold filter_block. rewrite b_ops_set_ops.
+    apply (exec_ops_sim env l C P cells_in P_keep P_store _ (R_paired b blk R1 Eb) stk st1 st2 E1).
+    eapply Hs; eauto.
+  Qed.
+End GraphStep.
+
+(* ---- algebra of the configuration relation ---- *)
+Lemma conf_eqx_refl C c : conf_eqx C c c.
+Proof.
+  destruct c; cbn [conf_eqx]; try exact Logic.I; try reflexivity;
+    try (split; [reflexivity|apply st_eqx_refl]).
+  split; [reflexivity|]. split; [reflexivity|apply st_eqx_refl].
+Qed.
+
+Lemma conf_eqx_mono (C C' : N -> Prop) c1 c2 :
+  (forall i, C i -> C' i) -> conf_eqx C c1 c2 -> conf_eqx C' c1 c2.
+Proof.
+  intros Hi. destruct c1, c2; cbn; try tauto.
+  - intros [H1 [H2 H3]]. split; [assumption|]. split; [assumption|]. eapply st_eqx_mono; eauto.
+  - intros [H1 H2]. split; [assumption|eapply st_eqx_mono; eauto].
+  - intros [H1 H2]. split; [assumption|eapply st_eqx_mono; eauto].
+  - intros [H1 H2]. split; [assumption|eapply st_eqx_mono; eauto].
+Qed.
+
+Lemma conf_eqx_trans (C : N -> Prop) c1 c2 c3 :
+  conf_eqx C c1 c2 -> conf_eqx C c2 c3 -> conf_eqx C c1 c3.
+Proof.
+  assert (T : forall a b c, st_eqx C a b -> st_eqx C b c -> st_eqx C a c).
+  { intros a b c H1 H2. eapply st_eqx_mono; [|eapply st_eqx_trans; eauto]. cbv beta. tauto. }
+  destruct c1, c2, c3; cbn; try tauto.
+  - intros [-> [-> H1]] [-> [-> H2]]. split; [reflexivity|]. split; [reflexivity|eauto].
+  - intros [-> H1] [-> H2]. split; [reflexivity|eauto].
+  - intros [-> H1] [-> H2]. split; [reflexivity|eauto].
+  - intros [-> H1] [-> H2]. split; [reflexivity|eauto].
+  - congruence.
+Qed.
+
+(* ---- the relation only looks at the graph through its blocks ---- *)
+Lemma gstep_ext env (G G' : bgraph) c : (forall b, G b = G' b) -> gstep env G c = gstep env G' c.
+Proof. intros H. destruct c; cbn [gstep]; try reflexivity. rewrite H. reflexivity. Qed.
+
+Lemma star_ext env (G G' : bgraph) c d : (forall b, G b = G' b) -> star env G c d -> star env G' c d.
+Proof.
+  intros H. induction 1 as [c|c c' c'' E S IH]; [apply star_refl|].
+  eapply star_step; [|exact IH]. rewrite <- (gstep_ext env G G' c H). exact E.
+Qed.
+
+(* ---- a decidable form of [paired] ---- *)
+Definition is_store_of (i : instr) : option N :=
+  match i_op i, i_args i with O_store, [ASlot s] => Some s | _, _ => None end.
+Definition is_load_of (i : instr) : option N :=
+  match i_op i, i_args i with O_load, [ASlot s] => Some s | _, _ => None end.
+
+Fixpoint paired_b (fuel : nat) (l : list N) (ops : list instr) : bool :=
+  match fuel with
+  | O => false
+  | S f =>
+      match ops with
+      | [] => true
+      | i :: t =>
+          if keep_op l i then paired_b f l t
+          else match is_store_of i, t with
+               | Some s, j :: t' =>
+                   match is_load_of j with
+                   | Some s' => N.eqb s s' && mem_N s l && paired_b f l t'
+                   | None => false
+                   end
+               | _, _ => false
+               end
+      end
+  end.
+
+Lemma is_store_of_eq i s : is_store_of i = Some s -> i = mkI O_store [ASlot s].
+Proof.
+  destruct i as [o a]. unfold is_store_of. cbn [i_op i_args].
+  destruct o; try discriminate. destruct a as [|[| | |u|] [|]]; try discriminate. congruence.
+Qed.
+Lemma is_load_of_eq i s : is_load_of i = Some s -> i = mkI O_load [ASlot s].
+Proof.
+  destruct i as [o a]. unfold is_load_of. cbn [i_op i_args].
+  destruct o; try discriminate. destruct a as [|[| | |u|] [|]]; try discriminate. congruence.
+Qed.
+
+Lemma paired_b_sound l : forall fuel ops, paired_b fuel l ops = true -> paired l ops.
+Proof.
+  induction fuel as [|f IH]; intros ops H; [discriminate|]. cbn [paired_b] in H.
+  destruct ops as [|i t]; [constructor|].
+  destruct (keep_op l i) eqn:Ek; [apply pr_keep; auto|].
+  destruct (is_store_of i) as [s|] eqn:Es; [|discriminate].
+  destruct t as [|j t']; [discriminate|].
+  destruct (is_load_of j) as [s'|] eqn:El; [|discriminate].
+  apply andb_true_iff in H. destruct H as [H H3]. apply andb_true_iff in H. destruct H as [H1 H2].
+  apply N.eqb_eq in H1. subst s'. apply mem_N_In in H2.
+  rewrite (is_store_of_eq _ _ Es), (is_load_of_eq _ _ El). apply pr_pair; auto.
+Qed.
+
